@@ -1,5 +1,6 @@
 """C26 — Process-wide named singletons are unique under concurrent first use (structural clauses)."""
 from rules.common import start
+from rules import wave2
 from rules import misc
 
 
@@ -13,4 +14,7 @@ def run(tier):
     for name, f in fx.items():
         misc.publish_rule(run, f, "C26-ATOMIC-PUBLISH")
         misc.names_rule(run, f, "C26-NAMES")
+    # clauses added for the wave-2 seeds (rules/wave2.py; DESIGN 12a)
+    for _cfg, f in fx.items():
+        wave2.lookup_consults_map_rule(run, f, "C26-LOOKUP-CONSULTS-MAP")
     return run.finish()
